@@ -38,47 +38,33 @@ Theorem suggest_none_untouched : forall (V : Type) veqb cfg rs ups,
 Proof. intros V veqb cfg rs ups H. eapply suggest_none_untouched_gen; [exact H|intros u []]. Qed.
 Print Assumptions suggest_none_untouched.
 
-(* D: the current version is one the registry lists (and it parses). On D the suggestion is never
-   below the current version, for any total preorder cmp and any Difference with d(a,a) = Same. *)
+(* the suggestion is never below the version the requirement stands for (any antisymmetric Compare,
+   any Difference, listed or not) *)
 Theorem suggest_not_downgrade : forall (V : Type) parses cmp dif,
-  (forall a, cmp a a = Eq) ->
-  (forall a b c, cmp a b <> Gt -> cmp b c <> Gt -> cmp a c <> Gt) ->
   (forall a b, cmp b a = CompOpp (cmp a b)) ->
-  (forall a, dif a a = Same) ->
   forall verr l c vs cur v,
-  current_of V parses cmp c vs = Some cur -> In cur vs -> parses cur = true ->
+  current_of V parses cmp c vs = Some cur ->
   suggest_maven_version V parses cmp dif verr l c vs = SNew v -> cmp cur v <> Gt.
 Proof. exact suggest_not_downgrade_lemma. Qed.
 Print Assumptions suggest_not_downgrade.
 
-Theorem suggest_no_panic_on_D : forall (V : Type) parses cmp dif,
-  (forall a, dif a a = Same) ->
-  forall verr l c vs cur,
-  current_of V parses cmp c vs = Some cur -> In cur vs -> parses cur = true ->
+(* and there is no nil dereference left: without a current version or without a candidate the
+   requirement is returned as it is *)
+Theorem suggest_no_panic : forall (V : Type) parses cmp dif verr l c vs,
   suggest_maven_version V parses cmp dif verr l c vs <> SPanic.
-Proof. intros V parses cmp dif H. apply suggest_no_panic_lemma. exact H. Qed.
-Print Assumptions suggest_no_panic_on_D.
+Proof. exact suggest_no_panic_lemma. Qed.
+Print Assumptions suggest_no_panic.
 
-(* at full strength both fail. Versions are numbers ordered as numbers; Difference is "major" between
-   different numbers. *)
 Definition ex_cmp (a b : N) : comparison := N.compare a b.
 Definition ex_dif (a b : N) : diff := if N.eqb a b then Same else DiffMajor.
 
-(* requirement 5 is not a listed version; the registry lists 3: the update proposes 3 *)
-Theorem suggest_downgrade_when_current_unknown_refuted :
-  exists l c vs cur v,
-    current_of N (fun _ => true) ex_cmp c vs = Some cur /\
-    suggest_maven_version N (fun _ => true) ex_cmp ex_dif false l c vs = SNew v /\ ex_cmp cur v = Gt.
-Proof. exists Major, (CSimple (Some 5%N)), [3%N], 5%N, 3%N. vm_compute. auto. Qed.
-Print Assumptions suggest_downgrade_when_current_unknown_refuted.
+(* the former witnesses: requirement 5 unknown to the registry, which lists 3 (resp. 7 under level patch) *)
+Example ex_suggest_unknown_current_kept :
+  suggest_maven_version N (fun _ => true) ex_cmp ex_dif false Major (CSimple (Some 5%N)) [3%N] = SKeep /\
+  suggest_maven_version N (fun _ => true) ex_cmp ex_dif false Patch (CSimple (Some 5%N)) [7%N] = SKeep.
+Proof. vm_compute. auto. Qed.
 
-(* level patch, requirement 5 unknown to the registry, only a major step available: newReq stays nil *)
-Theorem suggest_nil_on_no_candidate_refuted :
-  exists l c vs, suggest_maven_version N (fun _ => true) ex_cmp ex_dif false l c vs = SPanic.
-Proof. exists Patch, (CSimple (Some 5%N)), [7%N]. vm_compute. reflexivity. Qed.
-Print Assumptions suggest_nil_on_no_candidate_refuted.
-
-(* non-vacuity of D: a listed current version, an allowed higher version, a disallowed one *)
+(* non-vacuity: a listed current version, an allowed higher version, a disallowed one *)
 Example ex_suggest_on_D :
   suggest_maven_version N (fun _ => true) ex_cmp (fun a b => if N.eqb a b then Same else if N.ltb 8 a then DiffMajor else DiffMinor)
                         false Minor (CSimple (Some 5%N)) [9%N; 5%N; 7%N; 3%N] = SNew 7%N.
@@ -108,21 +94,25 @@ Theorem relax_level_checked : forall (V : Type) parses matches is_pre dif l c_ok
 Proof. exact relax_level_checked_lemma. Qed.
 Print Assumptions relax_level_checked.
 
-(* on D (valid level, and not "^" under level patch) everything the new range can admit is within
-   the level of the old resolved version *)
-Theorem relax_range_within_level_on_D : forall (V : Type) parses matches is_pre dif (cmp : V -> V -> comparison)
-                                               (comp : V -> comps),
+(* for every valid level, everything the new range can admit is within the level of the old resolved
+   version - for a strictly ascending version list, when Difference reports the first differing
+   component and classifies every strictly ordered pair (never Same / Other) *)
+Theorem relax_range_within_level : forall (V : Type) parses matches is_pre dif (cmp : V -> V -> comparison)
+                                          (comp : V -> comps),
   (forall a b, first_component_diffb (comp a) (comp b) (dif_or_other V dif a b) = true) ->
+  (forall a b, cmp a b = Lt -> classified (dif_or_other V dif a b) = true) ->
   forall l c_ok verr vers op best,
+  ssorted cmp vers = true ->
   relax_npm V parses matches is_pre dif l c_ok verr vers = Some (op, best) ->
-  relax_range_dom l op = true ->
+  valid_level l = true ->
   exists lst, highest_match V parses matches vers = Some lst /\
     forall v, range_admits V dif cmp op best v = true -> allows l (dif_or_other V dif lst v) = true.
-Proof. intros V parses matches is_pre dif cmp comp H. apply relax_range_on_dom_lemma with (comp := comp). exact H. Qed.
-Print Assumptions relax_range_within_level_on_D.
+Proof.
+  intros V parses matches is_pre dif cmp comp H1 H2. apply relax_range_lemma with (comp := comp); assumption.
+Qed.
+Print Assumptions relax_range_within_level.
 
-(* at full strength this fails: 1 = "1.2.3-alpha" (pinned), 2 = "1.2.3", 3 = "1.3.0", level patch.
-   The step 1 -> 2 is a prerelease difference, so "^1.2.3" is emitted, which admits 1.3.0. *)
+(* the former witness: 1 = "1.2.3-alpha" (pinned), 2 = "1.2.3", 3 = "1.3.0", level patch: now "~1.2.3" *)
 Definition ex_rdif (a b : N) : option diff :=
   match a, b with
   | 1%N, 2%N => Some DiffPrerelease
@@ -130,14 +120,26 @@ Definition ex_rdif (a b : N) : option diff :=
   | _, _ => if N.eqb a b then Some Same else Some DiffMajor
   end.
 
-Theorem relax_caret_under_patch_refuted :
-  exists vers op best lst v,
-    relax_npm N (fun _ => true) (N.eqb 1) (N.eqb 1) ex_rdif Patch true false vers = Some (op, best) /\
-    highest_match N (fun _ => true) (N.eqb 1) vers = Some lst /\
-    range_admits N ex_rdif N.compare op best v = true /\
-    allows Patch (dif_or_other N ex_rdif lst v) = false.
-Proof. exists [1%N; 2%N; 3%N], Caret, 2%N, 1%N, 3%N. vm_compute. auto. Qed.
-Print Assumptions relax_caret_under_patch_refuted.
+Example ex_relax_prerelease_step_tilde :
+  relax_npm N (fun _ => true) (N.eqb 1) (N.eqb 1) ex_rdif Patch true false [1%N; 2%N; 3%N] = Some (Tilde, 2%N).
+Proof. vm_compute. reflexivity. Qed.
+
+(* the level is checked from the HIGHEST matching version; a resolver that picks another matching
+   version (npm prefers the one tagged "latest") is moved further than the level allows:
+   1 = "1.1.3" (resolved), 2 = "2.1.1" (highest match), 3 = "2.2.2-alpha", level minor *)
+Definition ex_rdif3 (a b : N) : option diff :=
+  match a, b with
+  | 2%N, 3%N => Some DiffMinor
+  | _, _ => if N.eqb a b then Some Same else Some DiffMajor
+  end.
+
+Theorem relax_level_from_resolved_refuted :
+  exists vers op best resolved,
+    relax_npm N (fun _ => true) (fun v => N.leb v 2) (N.eqb 3) ex_rdif3 Minor true false vers = Some (op, best) /\
+    In resolved vers /\ N.leb resolved 2 = true /\
+    allows Minor (dif_or_other N ex_rdif3 resolved best) = false.
+Proof. exists [1%N; 2%N; 3%N], Caret, 3%N, 1%N. vm_compute. auto. Qed.
+Print Assumptions relax_level_from_resolved_refuted.
 
 (* non-vacuity: the chain 1.2.3 -> ~1.2.5 under level minor (versions 3,4,5 patch steps, 6 minor, 7 major) *)
 Definition ex_rdif2 (a b : N) : option diff :=
@@ -181,22 +183,15 @@ Theorem override_strictly_up : forall versions_of rank dif affected analyse cfg 
 Proof. intros vo rank dif aff an cfg ids H1 H2 fuel q. apply override_strictly_up_lemma; assumption. Qed.
 Print Assumptions override_strictly_up.
 
-(* termination within the stated bound, when moreover the resolver honours overrides (an overridden
-   package resolves to the overriding version) and resolves one version per package *)
+(* termination within the stated bound, for every resolver: no (package, version) override is requested
+   twice. pkgs is any list holding the packages that can turn up vulnerable. *)
 Theorem override_terminates : forall versions_of rank dif affected analyse cfg vuln_ids pkgs,
-  (forall p, wf_versions rank (versions_of p)) ->
-  (forall ovs vulns rv p v cl, analyse ovs = Some vulns -> In rv vulns -> In (p, v, cl) (rv_nodes rv) ->
-                               In v (versions_of p)) ->
   (forall ovs vulns rv p v cl, analyse ovs = Some vulns -> In rv vulns -> In (p, v, cl) (rv_nodes rv) ->
                                In p pkgs) ->
-  (forall ovs vulns rv p v cl t, analyse ovs = Some vulns -> In rv vulns -> In (p, v, cl) (rv_nodes rv) ->
-                                 last_override ovs p = Some t -> v = t) ->
-  (forall ovs vulns rv rv' p v v' cl cl', analyse ovs = Some vulns -> In rv vulns -> In rv' vulns ->
-                                 In (p, v, cl) (rv_nodes rv) -> In (p, v', cl') (rv_nodes rv') -> v = v') ->
   forall fuel, fuel_bound versions_of pkgs <= fuel ->
   forall i, run_patch_vulns versions_of rank dif affected analyse cfg vuln_ids fuel <> OOutOfFuel i.
 Proof.
-  intros vo rank dif aff an cfg ids pkgs H1 H2 H3 H4 H5 fuel Hf i.
+  intros vo rank dif aff an cfg ids pkgs H3 fuel Hf i.
   eapply override_terminates_lemma; eauto.
 Qed.
 Print Assumptions override_terminates.
@@ -224,9 +219,9 @@ Proof.
 Qed.
 Print Assumptions override_within_level_of_original.
 
-(* without the resolver premise the loop need not terminate. Package 1 has versions 1 < 2 < 3, the
-   vulnerability 9 affects 1 and 2; the resolver answers "package 1 is at version 2" whatever was
-   overridden (a direct soft requirement that a transitive hard range keeps out). *)
+(* a resolver that does not honour overrides: package 1 has versions 1 < 2 < 3, the vulnerability 9
+   affects 1 and 2; "package 1 is at version 2" whatever was overridden (a direct soft requirement that a
+   transitive hard range keeps out). The loop now stops after one pass. *)
 Definition nt_versions (p : pkg) : list ver := if N.eqb p 1 then [1; 2; 3]%N else [].
 Definition nt_rank (v : ver) : option Z := Some (Z.of_N v).
 Definition nt_dif (a b : ver) : diff := if N.eqb a b then Same else DiffMinor.
@@ -234,18 +229,12 @@ Definition nt_affected (u : vid) (p : pkg) (v : ver) : bool := N.ltb v 3.
 Definition nt_analyse (ovs : list (pkg * ver)) : option (list rvuln) :=
   Some [ {| rv_id := 9%N; rv_nodes := [(1%N, 2%N, false)] |} ].
 
-Theorem override_nontermination_refuted :
-  forall fuel, exists i, run_patch_vulns nt_versions nt_rank nt_dif nt_affected nt_analyse [] [9%N] fuel = OOutOfFuel i.
-Proof.
-  unfold run_patch_vulns. intros fuel. generalize (@nil (pkg * ver)) (@nil (list patch)).
-  induction fuel as [|f IH]; intros ovs acc; cbn [patch_vulns]; [eauto|].
-  replace (iteration nt_versions nt_rank nt_dif nt_affected nt_analyse [] [9%N] ovs)
-    with (Some [(1%N, 2%N, 3%N)]) by (vm_compute; reflexivity).
-  apply IH.
-Qed.
-Print Assumptions override_nontermination_refuted.
+Example ex_override_stubborn_resolver :
+  run_patch_vulns nt_versions nt_rank nt_dif nt_affected nt_analyse [] [9%N] (fuel_bound nt_versions [1%N])
+  = OOk [[(1%N, 2%N, 3%N)]].
+Proof. vm_compute. reflexivity. Qed.
 
-(* nor does the package then resolve to what was asked for: after the override 2 -> 3 of package 1 the
+(* the package need not resolve to what was asked for: after the override 2 -> 3 of package 1 the
    resolver may report it at version 1 (below where it was) *)
 Theorem override_resolved_version_refuted :
   exists analyse,
